@@ -35,6 +35,10 @@ def run(ctx):
     ctx.guard(rule_b_hook, ctx, ix, inv)
     ctx.guard(rule_c, ctx, ix)
     ctx.guard(rule_d, ctx, ix)
+    # a link replaced behind the "unchanged" shortcut leaves the memoised masks of linked attributes in place
+    from ..report import BorrowedCtx
+    from .C03 import rule_e as _shortcut
+    ctx.guard(_shortcut, BorrowedCtx(ctx, {'C03.e': 'C05.e'}), ix, ('_set_externally_derivable_components',))
 
 
 class Invalidation(object):
